@@ -157,10 +157,19 @@ def one_history(ctx, index: int, rng: random.Random):
             ledger_w += [1] * n0
             desc["steps"].append(["construct", gen.hexlist(init.ravel())])
         else:
-            if nd == 1:
-                h = physt.h1(None, method, adaptive=True, **kw)
+            # "started empty": no data at all, an empty batch, or a batch without a single finite value
+            start = rng.choice(["none", "none", "empty", "all_nan"])
+            if start == "none":
+                first = None
+            elif start == "empty":
+                first = np.zeros((0,) if nd == 1 else (0, nd))
             else:
-                h = physt.h(None, method, adaptive=True, dim=nd, **kw)
+                first = np.full((rng.randint(1, 3),) if nd == 1 else (rng.randint(1, 3), nd), np.nan)
+            desc["steps"].append([f"construct_{start}", []])
+            if nd == 1:
+                h = physt.h1(first, method, adaptive=True, **kw)
+            else:
+                h = physt.h(first, method, adaptive=True, dim=nd, **kw) if first is None else physt.h(first, method, adaptive=True, **kw)
     except Exception as e:
         rec.mon("C04.history.final")
         rec.fail(monitor="C04.history.final", op="construct", symptom=f"adaptive construction refused: {type(e).__name__}", diff=["raised"],
